@@ -2,7 +2,7 @@
 import itertools
 from facts import Node, Inconclusive, strip_targs
 from symex import Lin, Enum, Unknown, Ref, Closure, Sym, as_lin, Exec
-from evdom import EvDomain, Ev, run_paths
+from evdom import EvDomain, Ev, run_paths, loop_conds, loop_visits
 from lockset import Engine, protecting
 import common
 
@@ -171,7 +171,8 @@ class TPAnalysis:
             if not pend: break
             for lf, env, this, chain, lam in pend:
                 done.add((lf.loc, tuple(chain)))
-                wenv = {c['decl']: ('cap', c['var']) for c in lam.captures or [] if 'decl' in c}
+                wenv = lockset.Env({c['decl']: ('cap', c['var']) for c in lam.captures or [] if 'decl' in c})
+                wenv.clos = dict(getattr(env, 'clos', {}) or {})
                 eng._run(lockset.Frame(lf, wenv, ('this',), ['<thread>'], 0), frozenset(), ('worker', lf.shortloc()))
         q = [a for a in eng.accesses if a.cls == TP and a.field == 'm_queue' and not a.ctor_obj]
         bad = [a for a in q if not any(t[1] == 'm_queueMutex' and t[3] == 'own' for t in protecting(a))]
@@ -380,38 +381,59 @@ class TPAnalysis:
 
     # ---- clear(): TP.4 ---------------------------------------------------------------------------------------------------------
     def clear(self):
+        """the tasks queued on entry (content Q0 of m_queue) are followed through swaps into local containers; every traversal of
+        the container that holds Q0 is counted (loop iterations entered on the path, std::for_each = one representative visit)"""
         f = self.fn.get('clear')
         if f is None: return
         res = run_paths(self.facts, f, TPDomain())
+        conds = loop_conds(self.facts, {f.name})
         seen = set()
-        for P, E in res:
-            dels = evs(E, 'delete')
-            clears = [e for e in E if e.kind == 'call' and e.obj == 'm_queue' and e.name.split('::')[-1] in ('clear', 'pop_front', 'pop_back', 'erase')]
-            iters = sum(1 for c, v, _ in P.decisions if v is True and self._is_queue_loop(f, c))
-            for d in dels:
-                held = 'm_queueMutex' in d.locks
-                removed_before = any(E.index(c) < E.index(d) and 'm_queueMutex' in c.locks for c in clears if c.name.split('::')[-1] in ('pop_front', 'pop_back', 'erase'))
-                ok = held or removed_before
-                key = (d.site, ok)
-                if key in seen: continue
-                seen.add(key)
-                self.add('TP.4', ok, 'clear(): a queued task is destroyed only while m_queueMutex is held or after it was removed from the queue under the lock', d.site,
-                         '' if ok else 'the task is destroyed outside the lock while it is still in the queue: a worker can take it, run it during its destruction and delete it again')
-            emptied = any(c.name.split('::')[-1] == 'clear' for c in clears) or (iters and len([c for c in clears if c.name.split('::')[-1] in ('pop_front', 'pop_back', 'erase')]) >= iters)
-            if iters == 0: emptied = True
-            okc = bool(emptied) and (len(dels) >= iters)
-            key = ('path', iters, okc)
-            if key in seen: continue
-            seen.add(key)
-            self.add('TP.4', okc, f'clear(): path with {iters} queued task(s): {len(dels)} destroyed, queue emptied', f.shortloc(),
-                     '' if okc else ('queued tasks are removed without being destroyed' if len(dels) < iters else 'the queue still holds pointers to destroyed tasks'))
 
-    def _is_queue_loop(self, f, cond):
-        for n in f.nodes():
-            if n.k == 'rangefor' and n.n('c') is not None and n.n('c').id == cond.id:
-                r = n.n('range'); return r is not None and r.is_field('m_queue', TP)
-            if n.k in ('while', 'for') and n.n('c') is not None and n.n('c').id == cond.id: return True
-        return False
+        def once(ok, inst, site, why=''):
+            k = (ok, inst, why)
+            if k in seen: return
+            seen.add(k); self.add('TP.4', ok, inst, site, why)
+        any_visit = False
+        for P, E in res:
+            if P.end not in ('exit', 'return'): continue
+            holder = 'm_queue'; qcontent = 'Q0'
+            visits = {i for i, c in loop_visits(E, conds)}
+            vis_cont = dict(loop_visits(E, conds))
+            n_vis = n_del = n_rm = 0; cleared = False; touched = set()
+            for i, e in enumerate(E):
+                if i in visits and vis_cont[i] == holder: n_vis += 1
+                if e.kind == 'foreach' and e.obj == holder: n_vis += 1
+                if e.kind == 'call':
+                    b = e.name.split('::')[-1]
+                    pair = None
+                    if b == 'swap' and e.obj is not None and e.argobjs: pair = (e.obj, e.argobjs[0])
+                    elif e.name == 'std::swap' and len(e.argobjs) == 2: pair = tuple(e.argobjs)
+                    if pair and holder in pair:
+                        new = pair[0] if pair[1] == holder else pair[1]
+                        if holder == 'm_queue': qcontent = 'empty' if new not in touched else 'unknown'
+                        elif new == 'm_queue': qcontent = 'Q0'
+                        holder = new; continue
+                    if e.obj is not None: touched.add(e.obj)
+                    if e.obj == holder:
+                        if b == 'clear': cleared = True
+                        elif b in ('pop_front', 'pop_back', 'erase'): n_rm += 1
+                if e.kind == 'delete' and isinstance(e.val, Sym) and e.val.name.startswith(holder + '.'):
+                    n_del += 1
+                    ok = holder != 'm_queue' or 'm_queueMutex' in e.locks
+                    once(ok, 'clear(): a queued task is destroyed only while m_queueMutex is held or after it was removed from the queue under the lock', e.site,
+                         '' if ok else 'the task is destroyed outside the lock while it is still in the queue: a worker can take it, run it during its destruction and delete it again')
+                if e.kind in ('call',) and holder != 'm_queue' and e.obj == 'm_queue' and 'm_queueMutex' not in e.locks:
+                    once(False, 'clear(): m_queue is only touched under m_queueMutex', e.site, 'the queue is modified without the lock')
+            if n_vis: any_visit = True
+            inst = f'clear(): path visiting {n_vis} queued task(s): {n_del} destroyed, queue emptied'
+            if n_del < n_vis: once(False, inst, f.shortloc(), 'queued tasks are removed without being destroyed'); continue
+            if n_del > n_vis and n_vis: once(False, inst, f.shortloc(), 'a queued task is destroyed twice'); continue
+            if holder == 'm_queue':
+                emptied = cleared or n_rm >= max(n_vis, 1) or (n_vis == 0 and n_del == 0)
+                once(True if emptied else False, inst, f.shortloc(), '' if emptied else 'the queue still holds pointers to destroyed tasks')
+            else:
+                once(True if qcontent == 'empty' else None, inst, f.shortloc(), '' if qcontent == 'empty' else f'm_queue receives the content of {holder}, which is not known to be empty')
+        if not any_visit: self.add('TP.4', None, 'clear()', f.shortloc(), 'no traversal of the queued tasks recognised')
 
     def _pool_loop_conds(self, f):
         out = set()
@@ -429,9 +451,7 @@ class TPAnalysis:
         for timeout in ('<', '>'):
             dom = TPDomain(dict(timeout_sign=timeout))
             res = run_paths(self.facts, f, dom)
-            pool_conds = set()
-            for g in self.facts.fns:
-                if g.d.get('class') == TP: pool_conds |= self._pool_loop_conds(g)
+            conds = loop_conds(self.facts, {g.name for g in self.facts.fns if g.d.get('class') == TP})
             for P, E in res:
                 ws = [e for e in E if e.kind == 'write' and e.obj == 'm_isRunning']
                 row = f'(expiry timeout {timeout} 0)'
@@ -449,7 +469,8 @@ class TPAnalysis:
                 ok_b = any(E.index(e) > acq for e in na)
                 once('TP.6b', ok_b, 'stop(): notify_all() on the workers\' condition after the flag write or inside the same critical section', na[0].site if na else site,
                      '' if ok_b else ('notify_one() wakes a single worker; the others never leave the wait' if any(e.kind == 'notify_one' for e in E) else 'no notify_all(): idle workers are never woken'))
-                iters = sum(1 for c, v, _ in P.decisions if v is True and c.id in pool_conds)
+                iters = sum(1 for i, c in loop_visits(E, conds) if c == 'm_pool' and i > wi) + sum(1 for e in E[wi:] if e.kind == 'foreach' and e.obj == 'm_pool')
+                if iters: self.any_pool_visit = True
                 joins = [e for e in E[wi:] if e.kind == 'call' and e.name == 'std::thread::join']
                 ok_c = len(joins) >= iters and (iters == 0 or bool(joins))
                 once('TP.6c', ok_c, f'stop() {row}: every worker in m_pool is joined after the flag is cleared ({iters} pool element(s) on this path)', joins[0].site if joins else site,
@@ -464,7 +485,10 @@ class TPAnalysis:
 
     def run(self):
         if self.rep.broken: return
+        self.any_pool_visit = False
         self.locks(); self.worker(); self.thread_start(); self.start(); self.clear(); self.stop()
+        if 'stop' in self.fn and not self.any_pool_visit:
+            self.add('TP.6c', None, 'stop()', self.fn['stop'].shortloc(), 'no traversal of m_pool after the stop flag recognised')
 
 
 RULE_TEXT = {
